@@ -78,7 +78,7 @@ impl Property for C16 {
     }
     fn plan(&self, tier: Tier) -> Plan {
         Plan {
-            random_cases: tier.pick(6000, 150_000),
+            random_cases: tier.pick(4000, 150_000),
             tape_len: tier.pick(900, 1600),
             watchdog_s: 120,
             worker_recycle: 200,
